@@ -118,9 +118,24 @@ fn resolve_foreign_keys(
     foreign_keys_paths: BTreeSet<(Key, KeyPath)>,
 ) -> Result<()> {
     for (locale, value_path) in foreign_keys_paths {
-        let value = values
-            .get_value_at(&locale, &value_path)
-            .unwrap_at("resolve_foreign_keys_1");
+        let value = match values.get_value_at(&locale, &value_path) {
+            Some(value) => value,
+            None => {
+                // the key was a plural form and has been merged, the value is now at the plural key.
+                let mut plural_path = value_path.clone();
+                let base_key = plural_path
+                    .pop_key()
+                    .as_ref()
+                    .and_then(|key| key.name.rsplit_once('_'))
+                    .map(|(base, _)| base.strip_suffix("_ordinal").unwrap_or(base))
+                    .and_then(Key::new)
+                    .unwrap_at("resolve_foreign_keys_1");
+                plural_path.push_key(base_key);
+                values
+                    .get_value_at(&locale, &plural_path)
+                    .unwrap_at("resolve_foreign_keys_2")
+            }
+        };
         value.resolve_foreign_key(values, &locale, default_locale, &value_path)?;
     }
     Ok(())
